@@ -144,6 +144,23 @@ theorem index_cells (t : Text) (h : Canon t) (i : Int) :
     | ok x => rw [hp] at he; cases he
     | error e' => rw [hp] at he; cases he; exact pyIndex_error_eq _ _ _ hp
 
+/-- positions follow every `+=`, also one that merges into the last chunk and leaves the number of
+chunks as it was (nothing about positions may be remembered per chunk count): after
+`_append_chunk(c)` indexing and slicing are those of the old cells followed by the cells of `c` -/
+theorem index_after_append (t : Text) (h : Canon t) (c : Chunk) (i : Int) (j k : Option Int) :
+    ((appendChunk t c).getIndex i).map Text.cells = (pyIndex (t.cells ++ c.cells) i).map (fun x => [x]) ∧
+    ((appendChunk t c).getSlice j k).cells = pySlice (t.cells ++ c.cells) j k ∧
+    (∀ p, c.text ≠ [] → t.chunks.getLast? = some p → p.col = c.col →
+      (appendChunk t c).chunks.length = t.chunks.length) := by
+  have hc := appendChunk_canon t c h
+  refine ⟨?_, ?_, ?_⟩
+  · rw [← appendChunk_cells]; exact (index_cells _ hc i).1
+  · rw [← appendChunk_cells]; exact slice_cells _ hc j k
+  · intro p hne hlast hcol
+    unfold appendChunk
+    rw [if_neg hne]
+    exact pushChunk_length_merge t.chunks c p hlast hcol
+
 /-- `text.fixed_len(n)`: for `n ≥ 0` the first `n` cells, padded with default-coloured spaces
 (`s[:n].ljust(n)`) -/
 theorem fixedLen_cells (t : Text) (h : Canon t) (n : Nat) :
@@ -314,6 +331,19 @@ theorem palette_exists (specs : Colour → Sgr.Spec) (attrs : Colour → Sgr.Att
   · intro k fin hk hfin hm c
     exact Sgr.mkSeq_strippable k fin hk hfin hm (specs c) _ _
       (Classical.choose_spec (Classical.choose_spec (hex c))).1
+
+/-- `==` cannot be decided on the rendered strings: the rendering is not injective once characters
+of a text may themselves be colour sequences (captured coloured output). Here a red `a` and the ten
+default-coloured characters `ESC[31maESC[0m` have the same `str()`, satisfy the invariant, show
+different cells — and the model's `==` (chunk-wise, `eq_iff`) tells them apart -/
+theorem eq_not_by_rendering :
+    ∃ (P : Palette) (a b : Text), Canon a ∧ Canon b ∧ strOf P a = strOf P b ∧ a.cells ≠ b.cells ∧
+      eqText a b = false ∧ a.scrlen ≠ b.scrlen := by
+  let esc := Char.ofNat 27
+  refine ⟨⟨fun c => if c = 1 then [esc, '[', '3', '1', 'm'] else [], fun c => if c = 1 then [esc, '[', '0', 'm'] else [],
+      fun _ => Sgr.Attr.default⟩,
+    ⟨1, [⟨1, ['a']⟩]⟩, ⟨10, [⟨0, [esc, '[', '3', '1', 'm', 'a', esc, '[', '0', 'm']⟩]⟩, ?_, ?_, ?_, ?_, ?_, ?_⟩ <;>
+    decide +kernel
 
 /-- `strip_colors(format(text, spec))` is `format(plain_text, spec)` for every spec of the domain
 whose fill character is not ESC -/
